@@ -99,7 +99,7 @@ def err_name(e):
 def gen_call(r, F, mode, dtype):
     if r.random() < 0.04:
         F = F + 1  # a call of another feature dimension: ValueError once statistics exist
-    k = r.choice([1, 1, 2, 3, 4, 6])
+    k = r.choice([1, 1, 2, 3, 4, 6]) if mode != "constfrac" else r.choice([3, 7, 10, 30, 53, 64])
     X = c16.gen_data(r, mode, k, F, dtype)
     if k == 1 and r.random() < 0.6:
         spec = dict(idx=[0], other=None, pos=0, axis=-1)
@@ -141,7 +141,7 @@ def gen_foreign_raw(r, F):
 
 def gen_case(r):
     kind = r.choice(["npy", "npz", "npz", "raw", "raw"])
-    mode = r.choice(["int", "neg", "neg", "large", "small", "mixed"])
+    mode = r.choice(["int", "neg", "neg", "large", "small", "mixed", "constfrac"])
     dtype = r.choice(["f64", "f64", "f32"])
     F = r.choice([1, 2, 3, 4, 5])
     nv = r.random() < 0.6
